@@ -371,12 +371,13 @@ impl ObjectStream {
         if index >= self.offsets.len() {
             err!(PdfError::ObjStmOutOfBounds {index, max: self.offsets.len()});
         }
-        let start = self.inner.info.first + self.offsets[index];
+        let overflow = || PdfError::Other { msg: "object stream offset out of range".into() };
+        let start = self.inner.info.first.checked_add(self.offsets[index]).ok_or_else(overflow)?;
         let data = self.inner.data(resolve)?;
         let end = if index == self.offsets.len() - 1 {
             data.len()
         } else {
-            self.inner.info.first + self.offsets[index + 1]
+            self.inner.info.first.checked_add(self.offsets[index + 1]).ok_or_else(overflow)?
         };
 
         Ok((data, start..end))
